@@ -10,8 +10,11 @@ JInit == i = 1 /\ scen = [none |-> TRUE] /\ phase = "trace" /\ outcome = "none"
 JNext == i <= Len(Trace) /\ i' = i + 1 /\ UNCHANGED vars
 JSpec == JInit /\ [][JNext]_<<i, vars>>
 Check(name, sig, ok) == ok \/ PrintT("FAIL " \o ToJson([id |-> "C19", name |-> name, i |-> i, run |-> Ev.run, k |-> Ev.k, sig |-> sig]))
+Check13(name, ok) == ok \/ PrintT("FAIL " \o ToJson([id |-> "C13", name |-> name, i |-> i, run |-> Ev.run, k |-> Ev.k, sig |-> "-"]))
 Monitor ==
     Ev.e = "cycle" =>
+        \* C13: the feeder stops when its context ends (the cycle's context of these runs ends after 1.2 s; five seconds of grace for a loaded machine)
+        /\ Check13("StopsWhenItsContextEnds", Ev.overrunms <= 5000)
         /\ Check("EndsWithResultOrError", Ev.sig, Ev.outcome \in AllowedOutcomes)
         /\ Check("NoCosignatureFromGarbage", "-",
                  Ev.outcome = "result" => Ev.cp \notin {"badsig", "truncated", "random", "status404", "status500", "empty", "oversized", "json-odd-types"})
